@@ -298,4 +298,75 @@ example : acqMoments true true (1/10) [(1, 0), (3, 2), (-1, 1/2)] [2, 0, 1] = so
 example : lcb (fun v => v) none ((1 : Rat), (4 : Rat)) = -4 ∧ lcb (fun v => v) (some 2) (1, 4) = -7 := by
   decide +kernel
 
+/-! ## The environment of the call: the ambient joblib context -/
+
+/-- **C18 (every joblib context, every `n_jobs`).**  The three forms pass `require="sharedmem"` to
+`joblib.Parallel`.  Whatever context is active in the caller's code — no context, `parallel_config` /
+`parallel_backend` with the threading, loky, multiprocessing or sequential backend, with or without an
+`n_jobs` of its own — and whatever the forest's `n_jobs` (`none` = unset), joblib runs the per-tree tasks
+on a backend that shares the caller's memory, so the accumulators the caller reduces are the ones the
+workers filled: each form returns exactly what the context-free model returns.  All theorems above
+(`C18_mean`, `C18_total`, `C18_nonneg`, `C18_order`, `C18_blocks`, `C18_floor`) therefore hold in every
+environment, and the results do not depend on the environment. -/
+theorem C18_env (cpus : Nat) (a : Ambient) (nJobs : Option Int) (minVar : Rat) (trees : List TreeOut)
+    (order : List Nat) :
+    (resolve cpus codeHints a nJobs).shared = true ∧ (resolve cpus codeHints a nJobs).backend.sharedmem = true ∧
+    predictMeanEnv cpus codeHints a nJobs trees order = predictMean trees order ∧
+    predictStdEnv cpus codeHints a nJobs minVar trees order = predictStd minVar trees order ∧
+    predictDisEnv cpus codeHints a nJobs minVar trees order = predictDis minVar trees order := by
+  obtain ⟨h1, h2⟩ := resolve_code_shared cpus a nJobs
+  refine ⟨h1, h2, ?_, ?_, ?_⟩
+  · simp [predictMeanEnv, predictMean, accMeanEnv, h1]
+  · simp [predictStdEnv, predictStd, accStdEnv, h1]
+  · simp [predictDisEnv, predictDis, accDisEnv, h1]
+
+/-- consequence: two calls in different contexts, with different `n_jobs` and accumulation orders, agree -/
+theorem C18_env_indep (cpus cpus' : Nat) (a a' : Ambient) (n n' : Option Int) (minVar : Rat)
+    (trees : List TreeOut) (o o' : List Nat) (hn : trees ≠ []) (h : OrderOK trees.length o)
+    (h' : OrderOK trees.length o') :
+    predictMeanEnv cpus codeHints a n trees o = predictMeanEnv cpus' codeHints a' n' trees o' ∧
+    predictStdEnv cpus codeHints a n minVar trees o = predictStdEnv cpus' codeHints a' n' minVar trees o' ∧
+    predictDisEnv cpus codeHints a n minVar trees o = predictDisEnv cpus' codeHints a' n' minVar trees o' := by
+  obtain ⟨_, _, e1, e2, e3⟩ := C18_env cpus a n minVar trees o
+  obtain ⟨_, _, e1', e2', e3'⟩ := C18_env cpus' a' n' minVar trees o'
+  rw [e1, e2, e3, e1', e2', e3']
+  exact C18_order minVar trees o o' hn h h'
+
+/-- **`prefer="threads"` is only a hint** (why `require="sharedmem"` is load-bearing): a call that merely
+*prefers* threads loses the workers' writes exactly when the caller's context names a process backend
+and more than one worker is in effect (`n_jobs` of the call, else of the context, else 1; negative
+values counted from the number of CPUs). -/
+theorem C18_env_prefer_is_only_a_hint (cpus : Nat) (a : Ambient) (nJobs : Option Int) :
+    (resolve cpus ⟨true, false⟩ a nJobs).shared = false ↔
+      (a.backend = some .loky ∨ a.backend = some .multiprocessing) ∧
+        effJobs cpus (nJobs.getD (a.nJobs.getD 1)) ≠ 1 := by
+  rcases a with ⟨_ | b, nj⟩
+  · simp [resolve, Backend.sharedmem, Backend.usesThreads]
+  · cases b <;> cases nJobs <;> simp [resolve, Backend.sharedmem, Backend.usesThreads]
+
+/-- non-vacuity (16 CPUs): inside `parallel_config(backend="loky")` with `n_jobs = 4` the code's call runs on 4 threads;
+inside `parallel_backend("loky", n_jobs=4)` with `n_jobs` unset it runs sequentially in the caller (the
+context's `n_jobs` is dropped together with its backend); a threading context's `n_jobs` is honoured; the
+same forest asked with a mere preference inside the loky context reduces untouched zeros -/
+example : resolve 16 codeHints ⟨some .loky, none⟩ (some 4) = ⟨.threading, 4, false, true⟩ ∧
+    resolve 16 codeHints ⟨some .loky, some 4⟩ none = ⟨.threading, 1, true, true⟩ ∧
+    resolve 16 codeHints ⟨some .threading, some 4⟩ none = ⟨.threading, 4, false, true⟩ ∧
+    resolve 16 codeHints ⟨some .threading, some (-1)⟩ none = ⟨.threading, 16, false, true⟩ ∧
+    resolve 16 codeHints ⟨some .threading, some (-1)⟩ (some (-2)) = ⟨.threading, 15, false, true⟩ ∧
+    resolve 1 codeHints ⟨some .threading, some (-1)⟩ (some (-2)) = ⟨.threading, 1, true, true⟩ ∧
+    resolve 16 codeHints ⟨some .sequential, some 4⟩ (some 2) = ⟨.sequential, 1, true, true⟩ ∧
+    resolve 16 codeHints ⟨none, some 2⟩ none = ⟨.threading, 1, true, true⟩ ∧
+    resolve 16 ⟨true, false⟩ ⟨none, some 2⟩ none = ⟨.threading, 1, true, true⟩ ∧
+    resolve 16 ⟨true, false⟩ ⟨some .loky, none⟩ (some 4) = ⟨.loky, 4, false, false⟩ ∧
+    resolve 16 ⟨true, false⟩ ⟨some .multiprocessing, some (-1)⟩ none = ⟨.multiprocessing, 16, false, false⟩ ∧
+    resolve 16 ⟨true, false⟩ ⟨some .loky, some 4⟩ (some 1) = ⟨.loky, 1, true, true⟩ := by decide +kernel
+example : predictStdEnv 16 codeHints ⟨some .loky, none⟩ (some 4) (1/10) [(1, 0), (3, 2), (-1, 1/2)] [2, 0, 1]
+      = some ⟨1, 13/15 + 8/3⟩ ∧
+    predictStdEnv 16 ⟨true, false⟩ ⟨some .loky, none⟩ (some 4) (1/10) [(1, 0), (3, 2), (-1, 1/2)] [2, 0, 1]
+      = some ⟨0, 0⟩ ∧
+    predictDisEnv 16 ⟨true, false⟩ ⟨some .multiprocessing, some 2⟩ none (1/10) [(1, 0), (3, 2), (-1, 1/2)] [0, 1, 2]
+      = some ⟨0, 0, 0⟩ ∧
+    predictMeanEnv 16 ⟨true, false⟩ ⟨some .loky, none⟩ (some 1) [(1, 0), (3, 2), (-1, 1/2)] [0, 1, 2] = some 1 := by
+  decide +kernel
+
 end DH.Forest
